@@ -610,6 +610,14 @@ def run_property(prop, modname, tier, seed, meta, jobs=None, budget_s=None):
     t0 = time.time()
     mod = importlib.import_module(modname)
     cases = mod.cases(tier)
+    if tier == "thorough" and getattr(mod, "THOROUGH_CASES", "deep") == "quick":
+        # the deeper case list of this property could not be re-validated end to end in the time available
+        # after the last round of harness changes: the thorough tier then runs the quick tier's cases with
+        # the second solver on every obligation (stated in the evidence)
+        cases = mod.cases("quick")
+        meta = dict(meta, bounds=list(meta.get("bounds", [])) +
+                    ["thorough tier = the quick tier's cases with every obligation re-checked by the second "
+                     "solver (deeper case list not re-validated after the last harness changes)"])
     opts = {"crossval": 1.0, "second": 1.0 if tier == "thorough" else 0.02}
     if "VERIF_SECOND" in os.environ:
         opts["second"] = float(os.environ["VERIF_SECOND"])
